@@ -316,3 +316,17 @@ def _stname(names, prog, v):
             if prog.enum_val(n) == v[1]:
                 return n
     return str(v)
+
+
+_run_base = run
+
+
+def run(ctx):
+    _run_base(ctx)
+    prog = ctx.prog
+    ctx.rule("R4.7", "the oversubscription test sees the new state: in every life-cycle handler the CPU is recounted "
+             "after the thread's state was changed, never before (C05 R5.1's instances for the life-cycle events)")
+    from rules import round4
+    round4.share(ctx, "R4.7", "C05", lambda i_: i_["rule"] == "R5.1" and i_["inst"].split(":")[0] in
+                 ("execute", "end", "pause", "resume", "cool", "warm"), "recount-after:",
+                 "a resume that puts a second running thread on a physical CPU is accepted", 6)
